@@ -221,6 +221,17 @@ def mk_rpm(name, evr, cls="InstalledRpm"):
     return _classes()[cls]({"name": name, "epoch": str(evr[0]), "version": evr[1], "release": evr[2], "arch": "x86_64"})
 
 
+def parse_list(which, evrs):
+    """the builds of package `pkg` through one of the real parsers that offer newest()/oldest()"""
+    from insights.parsers.yum_list import YumListInstalled, YumListAvailable
+    if which == "rpm-qa":
+        return InstalledRpms(context_wrap("\n".join("pkg-%d:%s-%s.x86_64" % e for e in evrs)))
+    head = "Installed Packages" if which == "yum-installed" else "Available Packages"
+    rows = ["Loaded plugins: product-id, search-disabled-repos, subscription-manager", head]
+    rows += ["pkg.x86_64    %d:%s-%s    @rhel-7-server-rpms" % e for e in evrs]
+    return (YumListInstalled if which == "yum-installed" else YumListAvailable)(context_wrap("\n".join(rows)))
+
+
 def ops_impl(a, b):
     out = []
     for f in (lambda: a == b, lambda: a != b, lambda: a < b, lambda: a <= b, lambda: a > b, lambda: a >= b):
@@ -327,7 +338,8 @@ def run(chk):
 
     # ---- stream 2: epoch/version/release through InstalledRpm objects
     def gen_evr():
-        return (rng.choice([0, 0, 0, 1, 2, 10]), gen_str(rng, 5), gen_str(rng, 4))
+        # epochs also beyond one digit, beyond 256 (small-integer objects are shared up to there) and date-like
+        return (rng.choice([0, 0, 0, 1, 2, 10, 10, 256, 257, 300, 20240101, 4294967295]), gen_str(rng, 5), gen_str(rng, 4))
     evr_cases, impl, lines = [], [], []
     for _ in range(n_evr):
         x = gen_evr()
@@ -372,20 +384,22 @@ def run(chk):
     for _ in range(n_lists):
         k = rng.randint(1, 6)
         evrs = []
-        base = (rng.choice([0, 0, 1]), gen_ascii(4), gen_ascii(3))
+        base = (rng.choice([0, 0, 1, 257, 20240101]), gen_ascii(4), gen_ascii(3))
         for _ in range(k):
             evrs.append(rng.choice([base, (base[0], mutate_ascii(rng, base[1], ascii_alpha), base[2]),
-                                    (rng.choice([0, 1, 2]), gen_ascii(4), gen_ascii(3))]))
-        content = "\n".join("pkg-%d:%s-%s.x86_64" % e for e in evrs)
+                                    (rng.choice([0, 1, 2, base[0]]), gen_ascii(4), gen_ascii(3))]))
+        # every parser that offers newest()/oldest(): `rpm -qa` output and the two `yum list` forms
+        which = rng.choice(["rpm-qa", "rpm-qa", "yum-installed", "yum-available"])
+        chk.count("lists:" + which)
         try:
-            rpms = InstalledRpms(context_wrap(content))
+            rpms = parse_list(which, evrs)
             got = rpms.packages.get("pkg", [])
             if [(int(p.epoch), p.version, p.release) for p in got] != evrs:
                 chk.count("lists:parse-differs")
                 continue
             mx, mn = rpms.newest("pkg"), rpms.oldest("pkg")
         except Exception as e:
-            chk.failure("InstalledRpms / newest / oldest raised %s: %s on %r" % (type(e).__name__, e, evrs), {"op": "max", "evrs": evrs})
+            chk.failure("%s: parsing / newest / oldest raised %s: %s on %r" % (which, type(e).__name__, e, evrs), {"op": "max", "evrs": evrs, "parser": which})
             continue
         impl.append("%s|%s" % (show(mx), show(mn)))
         flat = "\t".join("%d\t%s\t%s" % (e[0], enc(e[1]), enc(e[2])) for e in evrs)
@@ -396,9 +410,9 @@ def run(chk):
         chk.count("lists:len%d" % k)
         for p in got:
             if rpm_version_compare(p, mx) > 0:
-                chk.failure("newest() is not a maximum: %r exceeds %r" % (show(p), show(mx)), {"op": "max", "evrs": evrs})
+                chk.failure("newest() is not a maximum: %r exceeds %r" % (show(p), show(mx)), {"op": "max", "evrs": evrs, "parser": which})
             if rpm_version_compare(p, mn) < 0:
-                chk.failure("oldest() is not a minimum: %r is below %r" % (show(p), show(mn)), {"op": "min", "evrs": evrs})
+                chk.failure("oldest() is not a minimum: %r is below %r" % (show(p), show(mn)), {"op": "min", "evrs": evrs, "parser": which})
     out = run_driver("C13", lines)
     model = ["%s|%s" % (canon_evr(out[2 * i]), canon_evr(out[2 * i + 1])) for i in range(len(list_cases))]
     chk.compare("newest/oldest", list_cases, impl, model)
@@ -453,9 +467,9 @@ def replay(data):
     elif op in ("max", "min"):
         evrs = [tuple(e) for e in c["evrs"]]
         try:
-            rpms = InstalledRpms(context_wrap("\n".join("pkg-%d:%s-%s.x86_64" % e for e in evrs)))
+            rpms = parse_list(c.get("parser", "rpm-qa"), evrs)
             mx, mn = rpms.newest("pkg"), rpms.oldest("pkg")
-            print("impl newest=%s oldest=%s" % (show(mx), show(mn)))
+            print("%s: impl newest=%s oldest=%s" % (c.get("parser", "rpm-qa"), show(mx), show(mn)))
             bad = any(rpm_version_compare(p, mx) > 0 or rpm_version_compare(p, mn) < 0 for p in rpms.packages["pkg"])
         except Exception as e:
             print("impl raised %s: %s" % (type(e).__name__, e))
